@@ -20,6 +20,8 @@
 // OUT OF OR IN CONNECTION WITH THE SOFTWARE OR THE USE OR OTHER DEALINGS IN THE
 // SOFTWARE.
 use alloc::collections::BTreeSet;
+#[cfg(feature = "verif-hooks")]
+use alloc::vec::Vec;
 use core::fmt::Debug;
 
 use num_traits::{One, PrimInt};
@@ -184,5 +186,19 @@ where
         for _iv in &self.pool {
             crate::mqtt::common::tracing::debug!("{_iv:?}");
         }
+    }
+}
+
+#[cfg(feature = "verif-hooks")]
+impl<T> ValueAllocator<T>
+where
+    T: PrimInt + One + Debug,
+{
+    /// Verification hook: the free intervals `(low, high)` in pool order, plus `(lowest, highest)`.
+    pub fn verif_intervals(&self) -> (Vec<(T, T)>, (T, T)) {
+        (
+            self.pool.iter().map(|iv| (iv.low, iv.high)).collect(),
+            (self.lowest, self.highest),
+        )
     }
 }
